@@ -149,8 +149,10 @@ def compress_trace_stream(rng, tier, vals, henc, hist, divergences, violations):
     mz = [o for outs in runner.run_model(runner.shard(rep, NCPU)) for o in outs]
     # the empty payload: `&uncompressed[0]` on an empty vector (C03_compress_empty_ub); no codec produces it
     hist["ztrace:empty_payload impl=%s model=%s" % (hz[0].replace(" ", "_")[:24], mz[0].replace(" ", "_")[:24])] = 1
-    if hz[0] != mz[0]:
-        divergences.append({"input": lines[0], "impl": hz[0][:200], "model": mz[0][:200]})
+    # Informational only: zlib_compress is internal and no codec hands it an empty payload (theorem
+    # C03_compress_input_nonempty: every payload has at least 25 bytes), so what the helper does on an empty
+    # vector (today: `&v[0]`, a libstdc++ assertion; after a `.data()` rewrite: a valid empty stream) is not
+    # observable through any blob codec and a difference here is not a divergence of the property's model.
     traces = {}
     for idx, (p, l, h, r, m) in enumerate(zip(pays, lines[1:], hz[1:], rep[1:], mz[1:])):
         t = h.split()
